@@ -4,11 +4,11 @@ CONSTANTS
   IncMax = 0
   RollNs = {0}
   Callers = {"a", "b", "c"}
-  IncsPer = 3
-  Reads = 3
-  Start = {0, 5, 6, 7, 8, 15}
+  IncsPer = 2
+  Reads = 2
+  Start = {0, 6, 7, 8}
   Alg = "total"
-  Locked = FALSE
+  Locked = TRUE
 SPECIFICATION SpecConc
 INVARIANTS TypeOK ReadsLinearizable ReadsNeverLow ReadsMultiple ReadsAtMost7 ReadsMonotone QuiescentExact ValueTracksTotal
 CHECK_DEADLOCK FALSE
